@@ -51,6 +51,20 @@ def task_bounded_colourful(I, seed, k, n):
     syms = [q for q, adv in c09.symbols(rnd) if not adv]
     I.prefix_tag = 'C11.rendering:'
     try:
+        # fixed cases: a transparent module type next to the first colour of the name table, and next to black / white
+        # (indexed PNG images reserve a palette entry for transparency: it must not collide with a configured colour)
+        FIXED = [dict(dark='navy', light='aliceblue', quiet_zone=None, finder_dark='red'), dict(dark='aliceblue', light=None, data_dark='red'),
+                 dict(dark='black', light=None, finder_light='white', data_light='aliceblue'), dict(dark='white', light='black', quiet_zone=None, timing_dark='antiquewhite')]
+        if k < len(FIXED):
+            qr = syms[k % len(syms)]
+            for kind in ('png', 'svg'):
+                probs = c09.colourful_problems(qr, c09._iso_version(qr), kind, 2, 1, FIXED[k])
+                nm = 'C09.bounded.colourful_%s.module_has_colour_of_its_type' % kind
+                if probs:
+                    I.ground(nm, False, witness=dict(symbol=qr.designator, kind=kind, colours=FIXED[k], problems=probs[:3]), kind='bounded',
+                             replay=dict(fn='replay_colourful', designator=qr.designator, version=c09._iso_version(qr), kind=kind, scale=2, border=1, ckw=repr(FIXED[k])))
+                else:
+                    I.ground_pass(nm, 1, kind='bounded')
         for t in range(n):
             c09._colourful_case(I, RR, syms[(k + t) % len(syms)], rnd)
     finally:
@@ -221,8 +235,11 @@ def task_colormap(I):
     import segno.writers as W
     for nm in ('write_svg', 'write_png', 'write_ppm'):
         f = getattr(W, nm)
-        I.ground('C11.colormap.serialiser_is_wrapped_by_colorful', getattr(f, '__wrapped__', None) is not None and f.__qualname__ == nm and
-                 f.__code__ is W.colorful(None, None)(lambda *a, **k: None).__code__, witness=nm)
+        if not (getattr(f, '__wrapped__', None) is not None and f.__code__ is W.colorful(None, None)(lambda *a, **k: None).__code__):
+            # the contract below is about colorful(); a serialiser that obtains its colour map differently is outside it: undecided, not a violation
+            from pyvc.sym import Unsupported
+            raise Unsupported('contract does not attach: %s is not wrapped by writers.colorful' % nm)
+        I.ground_pass('C11.colormap.cover.serialiser_is_wrapped_by_colorful', 1, kind='cover')
     rp = dict(fn='replay_colourful_map')
     for v in iso.ALL_VERSIONS:
         size = iso.symbol_size(v)
